@@ -1,0 +1,29 @@
+// Verification hooks for PGM-index. This header is only included when PGM_INDEX_VERIF is defined; with the guard off
+// none of the hook sites exists and the library is unchanged.
+//
+// All hooks are null by default. A verification harness sets them once, before any index is built or queried, and
+// never changes them afterwards; what a hook does for the calling thread is the harness's business.
+
+#pragma once
+
+#include <cstddef>
+
+namespace pgm::verif {
+
+/// Called by internal::make_segmentation for each constraint point (x, y) it hands to the piecewise linear model,
+/// before the point is added. Keys are passed as long double, which is exact for every supported key type.
+inline void (*add_point_hook)(long double x, size_t y) = nullptr;
+
+/// Called by PGMIndex::segment_for_key once per level of the recursive structure, after the segment for that level
+/// has been chosen. Positions are relative to the beginning of the level.
+/// @param level the level just searched (0 is the bottom level)
+/// @param predicted the position predicted by the level above
+/// @param scan_start the first segment inspected
+/// @param chosen the segment chosen at this level
+/// @param window_end one past the last segment of the binary-search window, or 0 on the linear-scan path
+inline void (*level_hook)(int level, size_t predicted, size_t scan_start, size_t chosen, size_t window_end) = nullptr;
+
+/// Defined by the harness; befriended by DynamicPGMIndex to read (never write) its private layout.
+struct Access;
+
+}
